@@ -226,7 +226,15 @@ func (e *Env) tr(x *SExpr) Val {
 		}
 		body := ne.bool(x.Args[0])
 		if x.Op == "forall" {
-			return Val{T: tBool, S: fmt.Sprintf("(forall (%s) %s)", strings.Join(decl, " "), sImp(sAnd(guards...), body))}
+			inner := sImp(sAnd(guards...), body)
+			if len(x.Trig) > 0 {
+				var ts []string
+				for _, t := range x.Trig {
+					ts = append(ts, ne.tr(t).S)
+				}
+				inner = fmt.Sprintf("(! %s :pattern (%s))", inner, strings.Join(ts, " "))
+			}
+			return Val{T: tBool, S: fmt.Sprintf("(forall (%s) %s)", strings.Join(decl, " "), inner)}
 		}
 		return Val{T: tBool, S: fmt.Sprintf("(exists (%s) %s)", strings.Join(decl, " "), sAnd(append(guards, body)...))}
 	}
